@@ -61,6 +61,8 @@ pub struct World51 {
     pub items: Vec<Item>,
     /// groups: (name, item indices, actions)
     pub groups: Vec<(String, Vec<usize>, Vec<Action>)>,
+    /// the component used by the informational same-handle probe
+    pub c1: ComponentAddress,
 }
 
 fn sval(s: &str) -> Vec<u8> {
@@ -431,7 +433,7 @@ pub fn build_world() -> World51 {
         // the largest state space last (if the shared wall budget runs out, every kind has been explored before)
         ("field+kv-collection(C1)".to_string(), vec![i_field[0], i_field[1], i_kv[0], i_kv[1]], g_state),
     ];
-    World51 { snap: sim.create_snapshot(), a, b, items, groups }
+    World51 { snap: sim.create_snapshot(), a, b, items, groups, c1 }
 }
 
 pub struct M51<'a> {
@@ -571,6 +573,49 @@ fn kind_of(item_name: &str) -> String {
     item_name.split(':').next().unwrap_or("").to_string()
 }
 
+/// Informational (outside the statement, which speaks of *later transactions*): what happens when the object's own
+/// code locks and then writes through the *same* open handle inside one transaction, and whether a later
+/// transaction can still write. Recorded with `ctx.info`, never judged.
+fn same_handle_probe(ctx: &Ctx, w: &World51) {
+    let field_item = w.items.iter().find(|i| i.name == "field:C1:0").unwrap();
+    let kv_item = w.items.iter().find(|i| i.name == "kv:C1:e1").unwrap();
+    let cases: Vec<(&str, &Item, Vec<Op>, Vec<Op>)> = vec![
+        (
+            "field",
+            field_item,
+            vec![Op::OpenField { obj: 0, idx: 0, mutable: true }, Op::FieldLock(0), Op::FieldWrite(0, Val::Str("written-after-lock".into())), Op::FieldClose(0)],
+            vec![Op::OpenField { obj: 0, idx: 0, mutable: true }, Op::FieldWrite(0, Val::Str("later-tx".into())), Op::FieldClose(0)],
+        ),
+        (
+            "kv-entry",
+            kv_item,
+            vec![Op::OpenKvColl { obj: 0, coll: 0, key: "e1".into(), mutable: true }, Op::KvLock(0), Op::KvSet(0, Val::Str("written-after-lock".into())), Op::KvClose(0)],
+            vec![Op::OpenKvColl { obj: 0, coll: 0, key: "e1".into(), mutable: true }, Op::KvSet(0, Val::Str("later-tx".into())), Op::KvClose(0)],
+        ),
+    ];
+    for (kind, item, first, later) in cases {
+        let (mut sim, probe) = probe_sim_from(&w.snap);
+        probe.take_log();
+        let r1 = exec(&mut sim, call_method(w.c1, &first), vec![]);
+        let log1 = probe.take_log();
+        let same_tx = match &r1 {
+            Ok(r) if is_success(r) => "lock+write-in-one-handle:committed".to_string(),
+            Ok(_) => format!("lock+write-in-one-handle:refused:{}", log1.iter().filter_map(|e| e.result.clone().err()).next().unwrap_or_default()),
+            Err(_) => "lock+write-in-one-handle:panic".to_string(),
+        };
+        let after1 = read_item(&sim, item);
+        let r2 = exec(&mut sim, call_method(w.c1, &later), vec![]);
+        let log2 = probe.take_log();
+        let later_tx = match &r2 {
+            Ok(r) if is_success(r) => "later-transaction-write:accepted".to_string(),
+            Ok(_) => format!("later-transaction-write:refused:{}", log2.iter().filter_map(|e| e.result.clone().err()).next().unwrap_or_default()),
+            Err(_) => "later-transaction-write:panic".to_string(),
+        };
+        let changed = read_item(&sim, item) != after1;
+        ctx.info(&format!("same-handle:{kind}:{same_tx}:{later_tx}:{}", if changed { "stored-value-changed-later" } else { "stored-value-kept" }), 1);
+    }
+}
+
 pub fn run(ctx: Ctx) -> ! {
     let w = build_world();
     if ctx.replay.is_some() {
@@ -589,6 +634,7 @@ pub fn run(ctx: Ctx) -> ! {
         per_group.push(json!({"group": w.groups[gi].0, "items": w.groups[gi].1.iter().map(|i| w.items[*i].name.clone()).collect::<Vec<_>>(), "actions": w.groups[gi].2.len(), "depth": depth, "depth_completed": s.depth_completed, "states": s.states, "transitions": s.transitions, "fixpoint": s.depth_completed == depth && s.per_depth_states.last() == Some(&0), "capped": s.capped}));
         total.add(&s);
     }
+    same_handle_probe(&ctx, &w);
     // non-vacuity: locks were accepted and attempts on locked items were seen and rejected
     let classes = ctx.classes();
     let accepted_locks = classes.iter().filter(|(k, _)| k.contains("lock") && k.ends_with(":accepted")).count();
